@@ -119,6 +119,20 @@ func c16() {
 		if rng.Intn(40) == 0 {
 			t = "/" + t
 		}
+		if rng.Intn(25) == 0 {
+			// many components within the length limit: runs of repeated
+			// slashes (empty components) around a few real ones
+			var sb strings.Builder
+			sb.WriteString([]string{".", "n", ".."}[rng.Intn(3)])
+			for sb.Len() < 200+rng.Intn(40) {
+				sb.WriteString(strings.Repeat("/", 1+rng.Intn(160)))
+				sb.WriteString([]string{"..", "n", ".", "../..", "n/.."}[rng.Intn(5)])
+			}
+			t = sb.String()
+			if len(t) > 247 {
+				t = t[:247]
+			}
+		}
 		c16check(r, links[rng.Intn(len(links))], t)
 	}
 	r.Sample(map[string]string{"link": "d/l", "target": "n//../../..", "reference": "escapes"})
